@@ -333,6 +333,7 @@ func VH_C03_TicksAndFramesRange() {
 // parent/style references and inline attributes, one <p> per cue with begin/end and references, runs as spans
 // separated by one <br/> per line break, title/copyright/language - for every iteration order of the maps.
 func VH_C03_PreEncode() {
+	vengineOnly()
 	vmode("int")
 	k := choose(vbound("shapes", 12, 36))
 	s := NewSubtitles()
